@@ -47,6 +47,12 @@ RRec(p) == RecM([Name |-> Leaf(p \o ".Name"),
 
 \* two DIFFERENT Go struct types that print the same type name, with the same field names in another order
 T2(p) == Rec([Title |-> Leaf(p \o ".Title"), Owner |-> Leaf(p \o ".Owner")])
+\* a struct with two embedded structs that both lead to a field Author -- PMeta (declared first) through its own embedded PAudit,
+\* PBy directly: Go's selector e.Author is the SHALLOWEST one (PBy's); a promoted field is the same variable as its explicit path
+ERec(p) == Rec([Title |-> Leaf(p \o ".Title"), Author |-> Leaf(p \o ".PBy.Author"), Stamp |-> Leaf(p \o ".PMeta.Stamp"),
+                PBy |-> Rec([Author |-> Leaf(p \o ".PBy.Author")]),
+                PMeta |-> Rec([Stamp |-> Leaf(p \o ".PMeta.Stamp"), Author |-> Leaf(p \o ".PMeta.PAudit.Author"),
+                               PAudit |-> Rec([Author |-> Leaf(p \o ".PMeta.PAudit.Author")])])])
 \* a pointer to a map: Go itself does not index through it; whether plush does is not specified (it must not crash)
 PMap(m) == [t |-> "pmap", m |-> m]
 \* context data: a struct, a pointer to one (transparent), a slice of structs, a map of structs, index variables
@@ -58,8 +64,11 @@ Data == [r |-> RRec("r"), rp |-> RRec("rp"),
          pks |-> [t |-> "pslice", xs |-> <<KRec("pks[0]"), KRec("pks[1]")>>],    \* a pointer to a slice: like a pointer to a map
          im |-> [t |-> "imap", m |-> [one |-> KRec("im[1]")]],                  \* map[int]K with the key 1
          pm |-> PMap([a |-> KRec("pm[a]")]), pms |-> A(<<PMap([a |-> KRec("pms[0][a]")])>>),
+         em |-> ERec("em"), ems |-> A(<<ERec("ems[0]")>>),
+         \* a map[string]interface{}: a struct, a pointer to one, and a key that is PRESENT and holds nil
+         am |-> M([a |-> KRec("am[a]"), b |-> KRec("am[b]"), n |-> Nil]),
          i0 |-> I(0), i1 |-> I(1), i9 |-> I(9), imax |-> I(2147483647), ka |-> S(<<"a">>), kz |-> S(<<"z", "z">>)]
-Roots == {"r", "rp", "rs", "rm", "k", "ks", "ta", "tb", "pks", "pm", "pms", "im"}
+Roots == {"r", "rp", "rs", "rm", "k", "ks", "ta", "tb", "pks", "pm", "pms", "im", "em", "ems", "am"}
 
 Unexported == "secret"
 VARIABLES e, v, n,     \* path expression, value reached ([t |-> "fail"] once navigation cannot be completed), steps
@@ -120,7 +129,7 @@ Extend ==
                         \/ (e' = Idx(e, IntL(2)) /\ v' = Nil)
                         \/ WrongKeyStep(Flt(3, 1)) \/ WrongKeyStep(Str(<<"1">>))
      \/ v.t = "pmap" /\ (KeyStep(Str(<<"a">>), "a") \/ KeyStep(Id("ka"), "a") \/ FieldStep("Name"))
-     \/ v.t = "map" /\ KeyStep(Str(<<"b">>), "b")
+     \/ v.t = "map" /\ (KeyStep(Str(<<"b">>), "b") \/ KeyStep(Str(<<"n">>), "n"))
      \/ v.t = "map" /\ \/ KeyStep(Str(<<"a">>), "a") \/ KeyStep(Str(<<"z", "z">>), "zz")
                        \/ KeyStep(Id("ka"), "a") \/ KeyStep(Id("kz"), "zz")
 Spec == Init /\ [][Extend]_vars
